@@ -3,4 +3,5 @@
 cd /verif || exit 2
 ./build.sh || exit 2
 ./build.sh release || exit 2
+./build.sh cli || exit 2
 echo "setup ok"
